@@ -126,6 +126,10 @@ class Check(object):
             self.cov["states"] += r_or_stats.get("states", 0)
             self.cov["transitions"] += r_or_stats.get("transitions", 0)
             self.cov["traces_validated_against_impl"] += r_or_stats.get("validated", 0)
+            for k, v in r_or_stats.get("skipped", {}).items():
+                self.cov["skipped_clauses"] += v
+                self.cov.setdefault("skipped_by_clause", {})
+                self.cov["skipped_by_clause"][k] = self.cov["skipped_by_clause"].get(k, 0) + v
             inc = r_or_stats.get("inconclusive", [])
             self.cov["inconclusive"] += len(inc)
             for i in inc[:3]:
